@@ -1027,7 +1027,6 @@ func (d *HAMTDirectory) AddChild(ctx context.Context, name string, nd ipld.Node)
 	if err != nil {
 		return err
 	}
-	newChild.Name = name
 
 	oldChild, err := d.shard.Swap(ctx, name, nd)
 	if err != nil {
@@ -1035,9 +1034,9 @@ func (d *HAMTDirectory) AddChild(ctx context.Context, name string, nd ipld.Node)
 	}
 
 	if oldChild != nil {
-		d.removeFromSizeChange(oldChild)
+		d.removeFromSizeChange(name, oldChild)
 	}
-	d.addToSizeChange(newChild)
+	d.addToSizeChange(name, newChild)
 	if oldChild == nil {
 		d.totalLinks++
 	}
@@ -1078,7 +1077,7 @@ func (d *HAMTDirectory) RemoveChild(ctx context.Context, name string) error {
 	}
 
 	if oldChild != nil {
-		d.removeFromSizeChange(oldChild)
+		d.removeFromSizeChange(name, oldChild)
 		d.totalLinks--
 	}
 
@@ -1126,12 +1125,12 @@ func (d *HAMTDirectory) switchToBasic(ctx context.Context, opts ...DirectoryOpti
 
 // The size change is tracked in the unit of the size estimation mode, the one
 // needsToSwitchToBasicDir and sizeBelowThreshold compare it with.
-func (d *HAMTDirectory) addToSizeChange(link *ipld.Link) {
-	d.sizeChange += d.linkSizeFor(link)
+func (d *HAMTDirectory) addToSizeChange(name string, link *ipld.Link) {
+	d.sizeChange += d.linkSizeFor(name, link)
 }
 
-func (d *HAMTDirectory) removeFromSizeChange(link *ipld.Link) {
-	d.sizeChange -= d.linkSizeFor(link)
+func (d *HAMTDirectory) removeFromSizeChange(name string, link *ipld.Link) {
+	d.sizeChange -= d.linkSizeFor(name, link)
 }
 
 // Evaluate a switch from HAMTDirectory to BasicDirectory in case the size will
@@ -1177,14 +1176,14 @@ func (d *HAMTDirectory) needsToSwitchToBasicDir(ctx context.Context, name string
 
 	operationSizeChange := 0
 	if entryToRemove != nil {
-		operationSizeChange -= d.linkSizeFor(entryToRemove)
+		operationSizeChange -= d.linkSizeFor(name, entryToRemove)
 	}
 	if nodeToAdd != nil {
 		link, err := ipld.MakeLink(nodeToAdd)
 		if err != nil {
 			return false, err
 		}
-		operationSizeChange += d.linkSizeFor(link)
+		operationSizeChange += d.linkSizeFor(name, link)
 	}
 
 	// We must switch if size and maxlinks are below threshold
@@ -1200,13 +1199,15 @@ func (d *HAMTDirectory) needsToSwitchToBasicDir(ctx context.Context, name string
 	return canSwitchSize && canSwitchMaxLinks, nil
 }
 
-// linkSizeFor returns the size contribution of a link based on the current estimation mode.
-func (d *HAMTDirectory) linkSizeFor(link *ipld.Link) int {
+// linkSizeFor returns the size contribution of the entry `name` based on the
+// current estimation mode. The name is passed explicitly: the links returned by
+// the shard's Find, Swap and Take carry its internal, prefixed link name.
+func (d *HAMTDirectory) linkSizeFor(name string, link *ipld.Link) int {
 	switch d.GetSizeEstimationMode() {
 	case SizeEstimationBlock:
-		return linkSerializedSize(link.Name, link.Cid, link.Size)
+		return linkSerializedSize(name, link.Cid, link.Size)
 	default:
-		return linksize.LinkSizeFunction(link.Name, link.Cid)
+		return linksize.LinkSizeFunction(name, link.Cid)
 	}
 }
 
@@ -1246,7 +1247,7 @@ func (d *HAMTDirectory) sizeBelowThreshold(ctx context.Context, sizeChange int) 
 			break
 		}
 
-		partialSize += d.linkSizeFor(linkResult.Link)
+		partialSize += d.linkSizeFor(linkResult.Link.Name, linkResult.Link)
 		// Check if size exceeds threshold (> not >=, matching upgrade logic).
 		// Early exit: no need to enumerate more links once we know we're above.
 		if partialSize+sizeChange > shardingSize {
